@@ -43,6 +43,10 @@ def run(ctx):
     ], "the safe make API never panics: no assertion, panic or unsafe precondition reachable on a valid Board")
     sanrules.producer_rule(ctx, facts, "M2")
     genrules.semilegal_rule(ctx, facts, "M3s", thorough=True)
+    ctx.decided.append("M3w Move::is_well_formed, the gate of Move::new and of every reader that builds a move from text, is the geometric "
+                       "predicate on all 532,480 (kind, cell, source, destination) tuples (= C06/WF re-run): a tuple it wrongly admits "
+                       "(a pawn stepping onto the last rank without promoting) would be applied by the safe API")
+    genrules.wellformed_rule(ctx, facts, "M3w")
     hashrules.writers_rule(ctx, facts, "M6")
     attackrules.prechecker_rule(ctx, facts, "M7")
     attackrules.checker_rule(ctx, facts, "M7c")
